@@ -35,7 +35,8 @@ let parse_cfg mpr kopts res unk prx =
   let known = List.map zi (split_on ',' kopts) in
   let rs = List.map (fun it ->
       match String.split_on_char '/' it with
-      | [p; m; f] -> { r_path = bytes_of_tok p; r_mask = zi m; r_flags = z_of_int ((int_of_string f) land (lnot 1)) }
+      | [p; m; f] -> { r_path = bytes_of_tok p; r_mask = zi m; r_flags = z_of_int ((int_of_string f) land (lnot 1)); r_obs = false }
+      | [p; m; f; o] -> { r_path = bytes_of_tok p; r_mask = zi m; r_flags = z_of_int ((int_of_string f) land (lnot 1)); r_obs = (o <> "0") }
       | _ -> failwith "bad res") (split_on ',' res) in
   let u = if unk = "-" then None else
       (match String.split_on_char '/' unk with
